@@ -103,10 +103,10 @@ theorem C21_fails_asis_buffered (c : Cfg) (hc : c.AsIsBuffered) :
     s.phase = .idle ∧ s.sent = 2 ∧ raftOf s.durable = [] ∧ recoverOK s = false := by
   obtain ⟨h1, h2⟩ := hc
   cases c with
-  | mk a b d =>
+  | mk a b d e =>
     simp only at h1 h2
     subst h1; subst h2
-    cases d <;> decide
+    cases d <;> cases e <;> decide
 
 /-- corpus/C21/peer-send-needs-persist.ops, model side: a peer that sends a Ready's messages
 although the storage call persisting it has not returned -/
@@ -118,10 +118,62 @@ is not in the files: `sent` exceeds what a crash keeps — the headline's last c
 theorem C21_fails_send_before_persist (c : Cfg) (hc : c.SendsEarly) :
     ¬ ((run c witnessSendEarly).sent ≤ (raftOf (run c witnessSendEarly).durable).length) := by
   cases c with
-  | mk a b d =>
+  | mk a b d e =>
     simp only [Cfg.SendsEarly] at hc
     subst hc
-    cases a <;> cases b <;> decide
+    cases a <;> cases b <;> cases e <;> decide
+
+/-- **A crash inside a Ready leaves a state raft can restart from** (entries persisted before the
+hard state).  For every storage state whose commit index is inside its log, and every Ready
+carrying a hard state `h` and an entry batch that raft could issue (it starts above the
+committed prefix and leaves no gap; `h.commit` is at most the new last index): after *every*
+prefix of the Ready's storage calls the recovered commit index is still inside the recovered
+log — `raft.NewRawNode` does not panic with "committed is out of range". -/
+theorem C21_commit_within_log (c : Cfg) (hc : c.OrderGood) (m : Mem) (h : HS) (f : Nat) (items : List Item)
+    (hm : CommitOK m) (hcf : m.hs.commit < f) (hb : m.baseIdx < f) (hl : f ≤ m.lastIndex + 1) (hne : items ≠ [])
+    (hh : h.commit ≤ f + items.length - 1) (k : Nat) (m' : Mem)
+    (hr : replayFrom m ((readyRecs c h f items).take k) = some m') : CommitOK m' := by
+  have hrecs : readyRecs c h f items = [.ents f items, .hs h] := by
+    unfold readyRecs; rw [show c.hsAfterEntries = true from hc]; rfl
+  rw [hrecs] at hr
+  have happ := Mem.append_valid m f items hb hl hne
+  have hlen : 0 < items.length := by
+    cases items with
+    | nil => exact absurd rfl hne
+    | cons a t => simp
+  have hlast : ({ m with ents := m.ents.take (f - m.baseIdx - 1) ++ items } : Mem).lastIndex = f + items.length - 1 := by
+    unfold Mem.lastIndex at hl ⊢
+    simp only [List.length_append, List.length_take]
+    omega
+  match k with
+  | 0 =>
+    simp [replayFrom] at hr; subst hr; exact hm
+  | 1 =>
+    simp only [List.take, replayFrom, Mem.applyRec, happ] at hr
+    have hm' := Option.some.inj hr
+    subst hm'
+    unfold CommitOK
+    rw [hlast]
+    show m.hs.commit ≤ f + items.length - 1
+    omega
+  | k + 2 =>
+    simp only [List.take, List.take_nil, replayFrom, Mem.applyRec, happ] at hr
+    have hm' := Option.some.inj hr
+    subst hm'
+    unfold CommitOK
+    show h.commit ≤ ({ m with ents := m.ents.take (f - m.baseIdx - 1) ++ items } : Mem).lastIndex
+    rw [hlast]; exact hh
+
+/-- **As-is (`handleReady` persists the hard state first).**  The very first (bootstrap) Ready:
+hard state {term 1, commit 3} and entries 1..3.  A crash after the first storage call leaves a
+commit index 3 over an empty log: `raft.NewRawNode` panics on restart. -/
+theorem C21_fails_asis_hs_before_entries (c : Cfg) (hc : c.OrderAsIs) :
+    ∃ m', replayFrom {} ((readyRecs c ⟨1, 0, 3⟩ 1 [(1, 1), (1, 2), (1, 3)]).take 1) = some m' ∧ ¬ CommitOK m' := by
+  cases c with
+  | mk a b d e =>
+    simp only [Cfg.OrderAsIs] at hc
+    subst hc
+    exact ⟨{ hs := ⟨1, 0, 3⟩ }, rfl, by decide⟩
 
 /-- **What the as-is code still guarantees** (any value of `flushOnAppend`): nothing is lost
 across a *clean* shutdown — whenever the WAL buffer is empty (after `wal.Sync()` /
